@@ -319,8 +319,14 @@ impl InnerFilter {
 
         let difference = measurement_vec - prediction;
         let difference_covariance = uncertainty + measurement_noise;
-        let update_strength =
-            self.uncertainty * measurement_transform.transpose() * difference_covariance.inverse();
+        let weight = difference_covariance.inverse();
+        if !weight.entry(0, 0).is_finite() {
+            // Both the prediction and the measurement claim to be exact, which
+            // happens when all samples of the measurement noise estimator are
+            // equal. There is no finite gain to weigh them with (0 * 1/0).
+            return;
+        }
+        let update_strength = self.uncertainty * measurement_transform.transpose() * weight;
         self.state = self.state + update_strength * difference;
         self.uncertainty = ((Matrix::unit() - update_strength * measurement_transform)
             * self.uncertainty)
